@@ -127,7 +127,60 @@ func main() {
 	if fd := get("target.go", "runTarget.Evaluate"); fd != nil {
 		o.Def("evaluateSkeleton", "String", lib.LeanLongString(lib.NormFuncKeep(fd, keepEv)))
 	}
-	// 4. Project.Run, whole body
+	// 3b. how Evaluate tells a missing dependency from other failures, and what LoadTarget hands it: the
+	//     classification is a type switch on the error's dynamic type, so unknownTarget must return the bare
+	//     UnknownTargetError (a wrapped one, e.g. fmt.Errorf("%w; …"), would be classified as "other": no event)
+	if fd := get("target.go", "runTarget.Evaluate"); fd != nil {
+		var facts []string
+		ast.Inspect(fd.Body, func(n ast.Node) bool {
+			switch n := n.(type) {
+			case *ast.TypeSwitchStmt:
+				var types []string
+				for _, c := range n.Body.List {
+					for _, t := range c.(*ast.CaseClause).List {
+						types = append(types, exprText(t))
+					}
+				}
+				on := ""
+				switch a := n.Assign.(type) {
+				case *ast.AssignStmt:
+					on = exprText(a.Rhs[0])
+				case *ast.ExprStmt:
+					on = exprText(a.X)
+				}
+				facts = append(facts, lib.LeanString("typeswitch "+on+": "+strings.Join(types, ", ")))
+			case *ast.CallExpr:
+				if sel, ok := n.Fun.(*ast.SelectorExpr); ok && (sel.Sel.Name == "As" || sel.Sel.Name == "Is") {
+					if pkg, ok := sel.X.(*ast.Ident); ok && pkg.Name == "errors" {
+						facts = append(facts, lib.LeanString("errors."+sel.Sel.Name))
+					}
+				}
+			}
+			return true
+		})
+		o.Def("depErrorClassification", "List String", "["+strings.Join(facts, ", ")+"]")
+	}
+	if fd := get("project.go", "Project.unknownTarget"); fd != nil {
+		var ctors []string
+		ast.Inspect(fd.Body, func(n ast.Node) bool {
+			if r, ok := n.(*ast.ReturnStmt); ok && len(r.Results) == 1 {
+				c := "?" + exprText(r.Results[0])
+				if call, ok := r.Results[0].(*ast.CallExpr); ok {
+					c = exprText(call.Fun)
+				}
+				ctors = append(ctors, lib.LeanString(c))
+			}
+			return true
+		})
+		o.Def("unknownTargetReturns", "List String", "["+strings.Join(ctors, ", ")+"]")
+	}
+	if fd := get("project.go", "Project.LoadTarget"); fd != nil {
+		o.Def("loadTargetBody", "String", lib.LeanLongString(lib.NormFunc(fd)))
+	}
+	// 4. Project.Run and the options it applies, whole bodies
+	if fd := get("project.go", "RunOptions.apply"); fd != nil {
+		o.Def("runOptionsApplyBody", "String", lib.LeanLongString(lib.NormFunc(fd)))
+	}
 	if fd := get("project.go", "Project.Run"); fd != nil {
 		o.Def("runBody", "String", lib.LeanLongString(lib.NormFunc(fd)))
 	}
